@@ -193,6 +193,14 @@ def run(ctx):
         ssrc = sig_src(sig)
         for call in calls(sig, maxposargs, maxstar, rnd, sample):
             cases.append({"kind": "bind", "sig": sig, "call": call, "src": ssrc + call_src(call)})
+    # the same binding through the host entry starlark.Call (no CALL instruction): positional and named arguments in
+    # caller-owned buffers that are overwritten right after the call
+    for sig in sigs:
+        ssrc = sig_src(sig)
+        for call in calls(sig, maxposargs, maxstar, rnd, 1.0 if ctx.quick else 0.5):
+            if call["star"]["some"] or call["ss"]["some"]:
+                continue
+            cases.append({"kind": "bind", "sig": sig, "call": call, "src": ssrc, "gocall": {"pos": call["pos"], "named": call["named"]}})
     nbind = len(cases)
     ucases = unpack_cases(ctx, rnd)
     if not ctx.quick and len(ucases) > 450000:      # TLC needs ~4 GB of heap per 100k records
@@ -203,7 +211,7 @@ def run(ctx):
 
     # execute
     fin, fout = ctx.path("bind.in"), ctx.path("bind.out")
-    vlib.write_ndjson(fin, [{"id": c["id"], "src": c["src"], "mode": "file", "want": ["r"]} for c in cases])
+    vlib.write_ndjson(fin, [dict({"id": c["id"], "src": c["src"], "mode": "file", "want": ["r"]}, **({"gocall": c["gocall"]} if "gocall" in c else {})) for c in cases])
     ctx.vh(["eval", "-in", fin, "-out", fout])
     res = {r["id"]: r for r in vlib.read_ndjson(fout)}
     uin, uout = ctx.path("unp.in"), ctx.path("unp.out")
@@ -243,7 +251,10 @@ def run(ctx):
         if c["kind"] == "bind":
             sig = c["sig"]
             s = "bind:pos=%d/star=%s/kwonly=%d/kwargs=%s" % (len(sig["pos"]), sig["star"], len(sig["kwonly"]), sig["kwargs"])
-            ctx.violation(s, "%s -> %s" % (c["src"].replace("\n", "; "), json.dumps(normalise(res[cid]))), {"case": c})
+            if "gocall" in c:
+                s = "go" + s
+            ctx.violation(s, "%s%s -> %s" % (c["src"].replace("\n", "; "), " starlark.Call(f, %s)" % json.dumps(c["gocall"]) if "gocall" in c else "",
+                                            json.dumps(normalise(res[cid]))), {"case": c})
         else:
             s = "%s:%s" % (c["kind"], ",".join(p["ty"] + p["mark"] for p in c["pairs"]))
             ctx.violation(s, "%s call=%s -> %s" % (c["kind"], json.dumps(c["call"]), json.dumps(ures[cid])), {"case": c})
@@ -269,7 +280,7 @@ def replay(ctx, path):
     c = d["replay"]["case"]
     if c["kind"] == "bind":
         fin, fout = ctx.path("r.in"), ctx.path("r.out")
-        vlib.write_ndjson(fin, [{"id": c["id"], "src": c["src"], "mode": "file", "want": ["r"]}])
+        vlib.write_ndjson(fin, [dict({"id": c["id"], "src": c["src"], "mode": "file", "want": ["r"]}, **({"gocall": c["gocall"]} if "gocall" in c else {}))])
         ctx.vh(["eval", "-in", fin, "-out", fout])
         r = vlib.read_ndjson(fout)[0]
         rec = {"id": c["id"], "kind": "bind", "sig": c["sig"], "call": c["call"], "res": normalise(r)}
